@@ -3,6 +3,7 @@
 package main
 
 import (
+	"crypto/sha256"
 	"encoding/hex"
 	"fmt"
 	"math/big"
@@ -29,6 +30,46 @@ func runInRange(o *Out, r *rand.Rand, thorough bool, _ []string) {
 		o.Case(fmt.Sprintf("inrange node=%s radius=%s id=%s", hex.EncodeToString(node[:]), hex.EncodeToString(rb[:]), hex.EncodeToString(id)), fmt.Sprint(got))
 	}
 	max := new(big.Int).Sub(new(big.Int).Lsh(big.NewInt(1), 256), big.NewInt(1))
+	// the store RPC (portal_*Store) applies the same rule before it puts: a protocol instance over a store with a
+	// chosen radius; keys are arbitrary, ids are their SHA-256
+	for i := 0; i < n/10; i++ {
+		rs := &radiusStore{db: map[string][]byte{}, radius: new(uint256.Int)}
+		p, _ := bareProtocolWithStore(r, []uint8{0, 1}, rs)
+		key := make([]byte, 1+r.Intn(40))
+		r.Read(key)
+		idh := sha256.Sum256(key)
+		self := p.Self().ID()
+		d := new(big.Int)
+		db := make([]byte, 32)
+		for j := range db {
+			db[j] = self[j] ^ idh[j]
+		}
+		d.SetBytes(db)
+		var radius *big.Int
+		switch r.Intn(4) {
+		case 0:
+			radius = new(big.Int).Add(d, big.NewInt(int64(r.Intn(3)-1))) // distance-1, distance, distance+1
+		case 1:
+			radius = new(big.Int).Set(max)
+		default:
+			radius = new(big.Int).Rand(r, max)
+		}
+		if radius.Sign() < 0 {
+			radius = big.NewInt(0)
+		}
+		if radius.Cmp(max) > 0 {
+			radius = new(big.Int).Set(max)
+		}
+		rs.radius, _ = uint256.FromBig(radius)
+		stored, err := portalwire.NewPortalAPI(p).Store("0x"+hex.EncodeToString(key), "0x01")
+		_, gerr := rs.Get(key, idh[:])
+		rb := rs.radius.Bytes32()
+		got := fmt.Sprint(stored && err == nil && gerr == nil)
+		if stored != (gerr == nil) {
+			got = "inconsistent" // said stored but nothing there, or the reverse
+		}
+		o.Case(fmt.Sprintf("inrange node=%s radius=%s id=%s site=storerpc", hex.EncodeToString(self[:]), hex.EncodeToString(rb[:]), hex.EncodeToString(idh[:])), got)
+	}
 	for i := 0; i < n; i++ {
 		var node enode.ID
 		r.Read(node[:])
